@@ -524,17 +524,20 @@ Proof. intros. unfold run_events. apply fold_left_app. Qed.
 
 (* with checkpoints atomic and in order (no stale write) the store always holds the in-memory task list, and a run with
    crashes is exactly the run of the runner model with restarts: [restart] may be used for a crash *)
+Lemma wrun_cons : forall c w e evs, wrun c w (e :: evs) = wrun c (wstep c w e) evs.
+Proof. reflexivity. Qed.
+
 Theorem store_is_memory : forall c evs w, no_stale evs = true -> w_disk w = tasks (w_mem w) ->
   w_disk (wrun c w evs) = tasks (w_mem (wrun c w evs)) /\
   w_mem (wrun c w evs) = run_events c (w_mem w) (flat_map erase evs).
 Proof.
-  intros c evs. induction evs as [|e evs IH]; intros w Hs Hd; simpl in *; [split; [assumption | reflexivity]|].
-  destruct e as [ev|old|]; simpl in Hs; try discriminate.
-  - destruct ev; simpl.
-    + destruct (IH (mkW (ensure c (w_mem w)) (tasks (ensure c (w_mem w)))) Hs eq_refl) as [A B]. split; assumption.
-    + destruct (IH (mkW (finish c id (w_mem w)) (tasks (finish c id (w_mem w)))) Hs eq_refl) as [A B]. split; assumption.
-    + apply IH; assumption.
-  - destruct (IH (mkW (reload (w_disk w) (log (w_mem w))) (w_disk w)) Hs eq_refl) as [A B]. split; [assumption|].
+  intros c evs. induction evs as [|e evs IH]; intros w Hs Hd; [split; [assumption | reflexivity]|].
+  rewrite wrun_cons. simpl in Hs. destruct e as [ev|old|]; try discriminate.
+  - destruct ev.
+    + destruct (IH (wstep c w (WStep EEnsure)) Hs eq_refl) as [A B]. split; [exact A | exact B].
+    + destruct (IH (wstep c w (WStep (EFinish id))) Hs eq_refl) as [A B]. split; [exact A | exact B].
+    + apply (IH w Hs Hd).
+  - destruct (IH (wstep c w WCrash) Hs) as [A B]; [reflexivity|]. split; [exact A|].
     rewrite B. simpl. unfold restart, persist. rewrite Hd. reflexivity.
 Qed.
 
